@@ -72,6 +72,7 @@ def gen_profile(ch, always_da1=None):
     p = Profile(name=name, version=version, xtversion_fmt=fmt, answers=answers, fg=fg, bg=bg,
                 hex_widths=widths, osc_term="ST" if ch.bool("st", 0.6) else "BEL",
                 kitty_graphics=kitty_graphics, iterm2_images=it)
+    p.hex_case = ch.pick("hexcase", ("lower", "lower", "upper", "mixed"))
     return p
 
 
